@@ -69,7 +69,8 @@ extern void cfg_yylex_destroy(void);
 extern int  cfg_lexer_include(cfg_t *cfg, const char *fname);
 extern void cfg_scan_fp_begin(FILE *fp);
 extern void cfg_scan_fp_end(void);
-extern void cfg_lexer_include_unwind(void);
+extern int  cfg_include_stack_ptr;
+extern void cfg_lexer_include_unwind(int depth);
 
 static int cfg_parse_internal(cfg_t *cfg, int level, int force_state, cfg_opt_t *force_opt);
 static void cfg_free_opt_array(cfg_opt_t *opts);
@@ -1804,6 +1805,7 @@ error:
 DLLIMPORT int cfg_parse_fp(cfg_t *cfg, FILE *fp)
 {
 	int ret;
+	int depth;
 
 	if (!cfg || !fp) {
 		errno = EINVAL;
@@ -1816,10 +1818,11 @@ DLLIMPORT int cfg_parse_fp(cfg_t *cfg, FILE *fp)
 		return CFG_PARSE_ERROR;
 
 	cfg->line = 1;
+	depth = cfg_include_stack_ptr;
 	cfg_scan_depth++;
 	cfg_scan_fp_begin(fp);
 	ret = cfg_parse_internal(cfg, 0, -1, NULL);
-	cfg_lexer_include_unwind();
+	cfg_lexer_include_unwind(depth);
 	cfg_scan_fp_end();
 	cfg_scan_depth--;
 	if (ret == STATE_ERROR)
